@@ -74,4 +74,4 @@ def replay_native(native):
 
 
 # thorough tier: deliberate edits that must turn an obligation red (applied to a scratch copy, never to /repo)
-MUTATIONS = [('contracts.overlap', 'ensure_minimum_chunksize', 'dask/array/overlap.py', '            if new > size + (size - c):', '            if new > size:'), ('contracts.overlap', '_overlap_internal_chunks', 'dask/array/overlap.py', '            left = [bds[0] + right_depth]', '            left = [bds[0] + left_depth]'), ('contracts.overlap', 'trim_internal', 'dask/array/overlap.py', '                d = d - overlap[1] if j != len(bd) - 1 else d', '                d = d - overlap[0] if j != len(bd) - 1 else d')]
+MUTATIONS = [('contracts.overlap', '_get_overlap_rechunked_chunks', 'dask/array/overlap.py', 'depths = [max(d) if isinstance(d, tuple) else d for d in depth2.values()]\n    # rechunk if new chunks are needed to fit depth in every chunk\n    return tuple(', 'depths = [(d[0] or d[1]) if isinstance(d, tuple) else d for d in depth2.values()]\n    # rechunk if new chunks are needed to fit depth in every chunk\n    return tuple('), ('contracts.overlap', 'ensure_minimum_chunksize', 'dask/array/overlap.py', '            if new > size + (size - c):', '            if new > size:'), ('contracts.overlap', '_overlap_internal_chunks', 'dask/array/overlap.py', '            left = [bds[0] + right_depth]', '            left = [bds[0] + left_depth]'), ('contracts.overlap', 'trim_internal', 'dask/array/overlap.py', '                d = d - overlap[1] if j != len(bd) - 1 else d', '                d = d - overlap[0] if j != len(bd) - 1 else d')]
